@@ -380,7 +380,7 @@ func init() {
 	for _, n := range strings.Fields(`accept map reduce sum mapReduce mean min max minMax combine combine3 combineN indexWhere
  groupByString groupByInt groupByEqual uniqueString uniqueInt compact cross merge order orderRev orderLess reverse append
  iir iirCombine visit fsm top skip number present set size first single last eval movingWindow movingWindowRemove replaceList
- len string trim toLower toUpper contains indexOf split cut replace toInt toFloat get put isAvail list multiUse`) {
+ len string trim toLower toUpper contains indexOf split cut replace toInt toFloat get put isAvail list multiUse replaceMap`) {
 		c07ModelledMeths[n] = true
 	}
 }
@@ -1385,6 +1385,20 @@ func init() {
 			return as
 		}},
 		"list": {"map", "list", none},
+		"replaceMap": {"map", "any", func(r *Rng) []c07Arg {
+			mem := func() *c07CExp {
+				return &c07CExp{K: "member", A: c07CArg(0), Key: []string{"a", "b", "k", "state", "zz"}[r.Pick(5)]}
+			}
+			switch r.Pick(4) {
+			case 0:
+				return []c07Arg{c07Fn(1, c07CInt(r.Pick(9)))}
+			case 1:
+				return []c07Arg{c07Fn(1, c07COp("+", mem(), mem()))}
+			case 2:
+				return []c07Arg{c07Fn(1, &c07CExp{K: "list", L: []*c07CExp{mem(), c07CInt(1)}})}
+			}
+			return []c07Arg{c07Fn(1, mem())}
+		}},
 	}
 	for n, m := range c07Meths {
 		switch m.recv {
